@@ -2,6 +2,7 @@
 from contracts import optable, optable_ref, core, bind
 from pyvc.report import Report
 from .common import run_fragments
+from . import wiring
 
 
 def run(tier, seed):
@@ -15,6 +16,7 @@ def run(tier, seed):
     run_fragments(rep, optable.OPTABLE + [core.LongestC(), bind.ApplyC(), core.ChoiceC()], tier,
                   only_cfg=lambda c, cfg: len(cfg.get('flags', [])) <= 3)
     optable.CreateC().obligations(rep, tier)
+    wiring.a_subst_obligations(rep, tier)
     maxlen = 6 if tier == 'quick' else 8
     bad, tried, bound = optable_ref.bounded(maxlen)
     rep.bounded.append({'unit': 'tree shape: generated parser vs brute-force reference of the statement', 'bound': bound, 'tried': tried, 'violations': len(bad)})
